@@ -2,6 +2,7 @@
 import warnings
 
 import numpy as np
+from hypothesis import strategies as st
 
 from checks import c03
 from vlib import meshes
@@ -9,7 +10,8 @@ from vlib import unitmodel as um
 from vlib.harness import Sub
 
 PROPERTY = "C11"
-RULE = ("C03's generator (3-D meshes only: a 2-D mesh has no normal direction) plus a thickness dz from one pixel to the domain size in a random length "
+RULE = ("depth samples: a uniform field in a box without holes, slab inside the box, nz from 1 to 100 and random dz: the column sum "
+        "is dz and the mean is 1.  C03's generator (3-D meshes only: a 2-D mesh has no normal direction) plus a thickness dz from one pixel to the domain size in a random length "
         "unit (slabs thinner than the cells they cut at ~40%), window given or omitted (10%), resolution int or dict with x, y "
         "and optionally z (a few dicts without x and/or y), and a reduction among sum, mean, min, max, nansum, nanmean, nanmin, "
         "nanmax named at the call or carried by every Layer while the call names another one; a quarter of the cases is repeated "
@@ -258,8 +260,47 @@ def _judge(case, r, p, m, u, v, idx, amb, zstep, fpos, d):
     return None
 
 
+# ------------------------------------------------------------------ number of depth samples
+UNIFORM_SPEC = {"d": 3, "seed": 5, "base": 1, "depth": 1, "refine_p": 0.5, "hole_p": 0.0, "subtree_hole_p": 0.0, "L": 1.0,
+                "corner": [0.0, 0.0, 0.0], "pos_unit": "cm", "dx_unit": "same", "max_cells": 200}
+depth_case_st = st.fixed_dictionaries({
+    "nz": st.sampled_from([1, 2, 3, 7, 19, 31, 31, 38, 49, 62, 62, 64, 100]),
+    "dz": st.floats(0.05, 0.45),
+    "op": st.sampled_from(["sum", "nansum", "mean"]),
+    "unit": st.sampled_from(["cm", "mm", "m"]),
+})
+
+
+def depth_samples(case, r):
+    """A field that is 1 everywhere in a box without holes, slab inside the box: the column sum is exactly the depth dz
+    (nz samples of step dz/nz), the mean is 1, whatever nz and dz are."""
+    m = meshes.build(UNIFORM_SPEC)
+    dg = meshes.datagroup(m, osyris)
+    dg["one"] = osyris.Array(values=np.ones(m.n), unit="g/cm**3")
+    fz = um.parse("cm")[0] / um.parse(case["unit"])[0]
+    r.label(f"nz_{case['nz']}", "op_" + case["op"])
+    r.nontrivial(case["nz"] >= 19)
+    kw = dict(direction="z", dx=0.4 * osyris.units("cm"), dz=float(case["dz"] * fz) * osyris.units(case["unit"]),
+              origin=osyris.Vector(0.5, 0.5, 0.5, unit="cm"), resolution={"x": 3, "y": 3, "z": case["nz"]}, plot=False,
+              operation=case["op"])
+    p, exc = c03.run_map([dg.layer("one")], kw)
+    if exc is not None:
+        r.bad(["depth-samples", "raises", type(exc).__name__], f"{exc!r}; {case}")
+        return
+    lay = p.layers[0]
+    data = np.ma.filled(np.ma.asarray(lay["data"], dtype=np.float64), np.nan)
+    f, dims = um.from_pint(lay["unit"])
+    want = case["dz"] if case["op"] != "mean" else 1.0             # g/cm**2 resp. g/cm**3 (cgs)
+    if not np.all(np.abs(data * f - want) <= 1e-9 * want):
+        r.bad(["depth-samples", "column-" + case["op"], "nz=" + ("large" if case["nz"] >= 19 else "small")],
+              f"uniform field 1 g/cm**3, slab dz = {case['dz']!r} cm inside the box, nz = {case['nz']}: the columns give "
+              f"{np.unique(np.round(data * f, 12)).tolist()} (cgs), expected {want!r}: the {case['op']} over the depth samples "
+              f"is not that of nz samples of step dz/nz")
+
+
 def subs(ctx):
-    return [Sub("thick_map", thick_map, strategy=c03.map_case_st(thick=True), quick=260, thorough=1000,
+    return [Sub("depth_samples", depth_samples, strategy=depth_case_st, quick=150, thorough=1500),
+            Sub("thick_map", thick_map, strategy=c03.map_case_st(thick=True), quick=260, thorough=1000,
                 required={"slab_thinner_than_cells": 0.15, "column_crosses_cells": 0.1, "resz_given": 0.2,
                           "op_sum": 0.04, "op_nanmean": 0.04, "window_omitted": 0.04, "operation_on_layer": 0.15,
                           "schedule_checked": 0.1})]
